@@ -24,7 +24,9 @@ def run(ch, build):
     for call, steps in CALLS.items():
         for fault in ("blackhole", "slow", "garbage", "busy", "trunc"):
             for frm in range(steps):
-                rs = ratios if not ch.quick() else [rng.choice(ratios)]
+                # quick: one ratio at random, but a silent peer with the deadline well beyond one attempt (3.5) always - the
+                # case in which an attempt times out while the caller's context is still alive
+                rs = ratios if not ch.quick() else sorted({rng.choice(ratios)} | ({3.5} if fault == "blackhole" else set()))
                 if ch.quick() and call in ("open", "sdr") and frm not in (0, 1, steps - 1) and rng.random() < 0.6:
                     continue
                 for r in rs:
